@@ -277,30 +277,44 @@ class ModuleFinder:
     def iter_submodules(
         self,
         path: Path | list[Path],
-        seen: set | None = None,
+        seen: set | None = None,  # noqa: ARG002
     ) -> Iterator[NamePartsAndPathType]:
         """Iterate on a module's submodules, if any.
 
         Parameters:
             path: The module path.
-            seen: If not none, this set is used to skip some files.
-                The goal is to replicate the behavior of Python by
-                only using the first packages (with `__init__` modules)
-                of the same name found in different namespace packages.
-                As soon as we find an `__init__` module, we add its parent
-                path to the `seen` set, which will be reused when scanning
-                the next namespace packages.
+            seen: Unused, kept for backward compatibility.
+                When a list of paths is given (namespace package),
+                the behavior of Python is replicated by only using
+                the first modules and packages (with `__init__` modules)
+                of the same name found in the different paths.
 
         Yields:
             name_parts (tuple[str, ...]): The parts of a submodule name.
             filepath (Path): A submodule filepath.
         """
         if isinstance(path, list):
-            # We never enter this condition again in recursive calls,
-            # so we just have to set `seen` once regardless of its value.
-            seen = set()
-            for path_elem in path:
-                yield from self.iter_submodules(path_elem, seen)
+            # Replicate the behavior of Python: for a given module name, the first part
+            # of the namespace package providing a module or a package (with an `__init__` module)
+            # takes precedence. Modules with the same name, or below it, in the other parts are skipped.
+            # Stubs and compiled modules never take precedence by themselves.
+            found = [
+                (index, name_parts, filepath)
+                for index, path_elem in enumerate(path)
+                for name_parts, filepath in self.iter_submodules(path_elem)
+            ]
+            # Parents must be attributed before their children.
+            found.sort(key=lambda item: len(item[1]))
+            owners: dict[NamePartsType, int] = {}
+            for index, name_parts, filepath in found:
+                parents = (name_parts[:stop] for stop in range(1, len(name_parts)))
+                takes_precedence = filepath.suffix == ".py" or filepath.name.split(".", 1)[0] == "__init__"
+                if any(owners.get(parent, index) != index for parent in parents) or (
+                    takes_precedence and owners.setdefault(name_parts, index) != index
+                ):
+                    logger.debug("Skip %s, another module took precedence", filepath)
+                    continue
+                yield name_parts, filepath
             return
 
         if path.stem == "__init__":
@@ -310,17 +324,8 @@ class ModuleFinder:
         elif path.suffix in self.extensions_set:
             return
 
-        # `seen` is only set when we scan a list of paths (namespace package).
-        # `skip` is used to prevent yielding modules
-        # of a regular subpackage that we already yielded
-        # from another part of the namespace.
-        skip = set(seen or ())
-
         for subpath in self._filter_py_modules(path):
             rel_subpath = subpath.relative_to(path)
-            if rel_subpath.parent in skip:
-                logger.debug("Skip %s, another module took precedence", subpath)
-                continue
             py_file = rel_subpath.suffix == ".py"
             stem = rel_subpath.stem
             if not py_file:
@@ -333,8 +338,6 @@ class ModuleFinder:
                 if len(rel_subpath.parts) == 1:
                     continue
                 yield rel_subpath.parts[:-1], subpath
-                if seen is not None:
-                    seen.add(rel_subpath.parent)
             elif py_file:
                 yield rel_subpath.with_suffix("").parts, subpath
             else:
